@@ -300,50 +300,12 @@ def check_round_trip(ctx, rule="C17.T"):
     if parse is None:
         raise AnalysisError("text.parse_text_subroutine not found")
     ctx.fn("text.parse_text_subroutine")
-    opm = repo.module(I.OPERAND_MOD)
-    K = opm.classes
-    rn = repo.get_class("netqasm.lang.encoding", "RegisterName")
-    rmem = ev.enum_members(rn)
-    banks = sorted(rmem, key=lambda b_: rmem[b_])
-
-    def reg(bank, idx):
-        return C.Obj(K["Register"], {"name": EnumMember(rn.qualname, bank, rmem[bank]), "index": idx})
+    from .. import codec
+    w = codec.World(ctx)
+    plain = codec.plain
 
     def value_of(types, variant, pos, wide):
-        """an operand value for a field admitting `types` (variant 0: smallest, 1: largest, 2: mixed / unusual)"""
-        t = set(types)
-        if "Register" in t and not (variant == 2 and "Immediate" in t):
-            return reg(banks[(pos + variant) % len(banks)], (0, 15, 7)[variant])
-        if "Template" in t and variant == 2:
-            return C.Obj(K["Template"], {"name": f"tpl{pos}"})
-        if "Immediate" in t:
-            v = (0, 200, 1)[variant]
-            if wide and variant == 1:
-                v = 70000
-            if wide and variant == 2:
-                v = -5
-            return C.Obj(K["Immediate"], {"value": v})
-        if "ArrayEntry" in t:
-            return C.Obj(K["ArrayEntry"], {"address": C.Obj(K["Address"], {"address": (0, 7, 3)[variant]}), "index": reg("R", (0, 15, 2)[variant])})
-        if "ArraySlice" in t:
-            return C.Obj(K["ArraySlice"], {"address": C.Obj(K["Address"], {"address": (0, 7, 3)[variant]}), "start": reg("R", (0, 14, 2)[variant]), "stop": reg("R", (1, 15, 3)[variant])})
-        if "Address" in t:
-            return C.Obj(K["Address"], {"address": (0, 7, 70000)[variant]})
-        return None
-
-    def plain(v):
-        """a comparable picture of an operand value, whichever model the interpreter used for it"""
-        if isinstance(v, C.Imm):
-            return ("imm", v.value)
-        if isinstance(v, EnumMember):
-            return ("enum", v.name)
-        if isinstance(v, C.Obj) and v.cls is not None:
-            if v.cls.name == "Immediate":
-                return ("imm", v.fields.get("value"))
-            return (v.cls.name,) + tuple((k_, plain(x_)) for k_, x_ in sorted(v.fields.items()) if k_ != "lineno")
-        if isinstance(v, bool) or not isinstance(v, (int, str, type(None))):
-            return ("?", repr(v))
-        return v
+        return w.value_of(types, variant, pos, wide, templates=True)
 
     n_cls = n_inst = 0
     flav_objs = {}
